@@ -6,6 +6,7 @@ from .fsxcheck import run as fsx
 from .report import Check, log
 
 RES = ("hivemc.w_res", "make")
+GRID = ("hivemc.w_grid", "make")
 
 
 def c02() -> int:
@@ -18,12 +19,14 @@ def c02() -> int:
     needs = [
         "default:DispatchStation>ChargeQueueing",
         "default:ChargeQueueing>ChargingStation",
-        "default:ChargingStation>Idle",
+        "default:ChargingStation>Idle|auto:ChargingStation:Idle:Idle",
         "default:ChargingBase>ReserveBase",
         "default:DispatchBase>ReserveBase",
         "default:DispatchBase>Idle",
     ]
     fsx(c, RES + ({"variant": "core"},), ("hivemc.bundles", "c02", {}), K=3 if quick else 4, H=7 if quick else 9, needs=needs)
+    fsx(c, GRID + ({"pairs": True},), ("hivemc.bundles", "c02", {}), K=3 if quick else 4, H=9 if quick else 11,
+        needs=["default:DispatchStation>ChargeQueueing", "default:DispatchBase>ReserveBase"])
     return c.finish()
 
 
@@ -36,7 +39,8 @@ def c07() -> int:
     quick = tier() == "quick"
     needs = ["c07:pickup", "c07:dropoff", "instr:Idle:ChargeBase:ChargingBase", "instr:Idle:ReserveBase:Idle",
              "instr:Idle:ChargeStation:Idle"]
-    fsx(c, RES + ({"variant": "full" if not quick else "core"},), ("hivemc.bundles", "c07", {}), K=2 if quick else 3, H=7 if quick else 9, needs=needs)
+    fsx(c, RES + ({"variant": "full" if not quick else "core"},), ("hivemc.bundles", "c07", {}), K=3, H=7 if quick else 9, needs=needs)
+    fsx(c, GRID + ({"pairs": True},), ("hivemc.bundles", "c07", {}), K=3 if quick else 4, H=9 if quick else 11, needs=["c07:pickup", "c07:dropoff"])
     return c.finish()
 
 
@@ -111,6 +115,8 @@ def c06() -> int:
     fsx(c, RES + ({"variant": "core"},), ("hivemc.bundles", "c06", {}), K=2 if quick else 3, H=7 if quick else 9,
         needs=["c06:judged:DispatchStation", "c06:judged:DispatchBase", "c06:judged:Repositioning", "c06:judged:ServicingTrip", "c06:mid_link_split"])
     fsx(c, REQ + ({},), ("hivemc.bundles", "c06", {}), K=3 if quick else 4, H=8 if quick else 10, needs=["c06:judged:DispatchTrip", "c06:judged:ServicingTrip"])
+    fsx(c, GRID + ({"pairs": True},), ("hivemc.bundles", "c06", {}), K=3 if quick else 4, H=10 if quick else 12,
+        needs=["c06:judged:DispatchStation", "c06:judged:DispatchBase", "c06:judged:Repositioning", "c06:judged:ServicingTrip", "c06:mid_link_split"])
     # arrivals with a full battery / tank (small-battery v0 starts full)
     fsx(c, RES + ({"variant": "core", "mechs": ("small", "small", "quiet"), "v0_energy": 1.0, "name": "W-res/full"},), ("hivemc.bundles", "c06", {}), K=2, H=6 if quick else 8,
         needs=["default:DispatchStation>Idle|default:DispatchStation>ChargingStation"])
@@ -129,6 +135,7 @@ def c08() -> int:
     fsx(c, RES + ({"variant": "core"},), ("hivemc.bundles", "c08", {}), K=2 if quick else 3, H=7 if quick else 9,
         needs=["default:DispatchTrip>ServicingTrip", "default:ServicingTrip>Idle", "env:R"])
     fsx(c, REQ + ({},), ("hivemc.bundles", "c08", {}), K=3 if quick else 4, H=8 if quick else 10)
+    fsx(c, GRID + ({},), ("hivemc.bundles", "c08", {}), K=3, H=9 if quick else 11)
     c.assumptions += ["re-adding an id that is already present is outside the alphabet (the API gives it no meaning)"]
     return c.finish()
 
@@ -251,6 +258,7 @@ def c16() -> int:
     quick = tier() == "quick"
     fsx(c, ("hivemc.w_imm", "make_res", {"variant": "core"}), ("hivemc.bundles", "c16", {}), K=2, H=6 if quick else 8, needs=["c16:apply_calls"])
     fsx(c, ("hivemc.w_imm", "make_req", {}), ("hivemc.bundles", "c16", {}), K=2 if quick else 3, H=7 if quick else 9, needs=["c16:apply_calls"])
+    fsx(c, ("hivemc.w_imm", "make_grid", {}), ("hivemc.bundles", "c16", {}), K=2, H=7 if quick else 9, needs=["c16:apply_calls"])
     return c.finish()
 
 
